@@ -106,6 +106,16 @@ package providers
 //@   ensures [C19] revoked_or_already: result == nil <==> called(@oktaRequest#1) && (@oktaRequest#1 == nil || @oktaRequest#1 == ErrTokenRevoked)
 //@   ensures [C19] error_passed_on: result != nil ==> result == @oktaRequest#1
 
+// Cognito has no token revocation endpoint: a sign-out is the directory's global sign-out for this session's user
+//@ interface CognitoAdminProvider.GlobalSignOut(session *sessions.SessionState) (err error)
+//@   modifies clock
+
+//@ func (p *AmazonCognitoProvider) Revoke(session *sessions.SessionState) error
+//@   modifies clock
+//@   ensures [C19] signs_this_session_out: called(@GlobalSignOut#1) && arg(@GlobalSignOut#1, 0) == old(p.AdminService) && arg(@GlobalSignOut#1, 1) == session
+//@   ensures [C19] nil_exactly_when_signed_out: result == nil <==> @GlobalSignOut#1 == nil
+//@   ensures [C19] error_passed_on: result != nil ==> result == @GlobalSignOut#1
+
 //@ interface Provider.RefreshSessionIfNeeded(s *sessions.SessionState) (bool, error)
 //@   modifies s.AccessToken, s.RefreshDeadline, clock
 
